@@ -4,9 +4,9 @@
 (* Part A (semantics): expression ASTs, values and a recursive Eval(e, env) that transcribes Python's   *)
 (* operator semantics for the int / bool / None / str / tuple fragment, with all operands of and / or   *)
 (* evaluated (as the statement of C16 says).  Eval returns a value, Err(kind) or Out ("outside the      *)
-(* fragment": floats, huge ints, IndexError -- no claim is made then).  ExprsUpTo(n) enumerates every   *)
-(* AST up to n nodes; with MaxOps = 0 the model checker visits one state per (AST, env) and checks that *)
-(* Eval and Deps are total and well-typed (EvalTotal).                                                   *)
+(* fragment": floats, huge ints, IndexError -- value or error, no claim).  ExprsOfSize defines the ASTs  *)
+(* with n nodes; SpecA visits one state per (AST, env) up to MaxSize nodes and checks that Eval and     *)
+(* Deps are total and well-typed (EvalTotalA).                                                          *)
 (*                                                                                                      *)
 (* Part B (freshness): a template `cfg.expr` over machine variables, player variables, a setting and    *)
 (* device attributes; a subscriber holding the last value, the set of keys the last evaluation depends  *)
@@ -15,10 +15,10 @@
 (* event handler, evaluated at post time).  `auto` is a consumer that re-evaluates in its done-callback *)
 (* (config_player._update_subscription / event_player.handle_subscription_change).                      *)
 EXTENDS Integers, Sequences, FiniteSets, TLC
-CONSTANTS Configs,      \* templates: records [id, expr, vars, ...]
+CONSTANTS Configs,      \* templates: records [id, expr, vars, ep, ge]
           Envs,         \* initial environments
           MVals, PVals, SVals, WVals, CVals,   \* values Set may assign (machine var, player var, setting, switch, counter)
-          MaxOps,       \* number of steps
+          MaxOps,       \* number of steps (part B)
           Spurious      \* subset of BOOLEAN: may a step complete the future although nothing read changed
 VARIABLES cfg, env, sub, auto, nops, act
 vars == <<cfg, env, sub, auto, nops, act>>
@@ -28,7 +28,7 @@ B(b) == [k |-> "bool", v |-> b]
 NoneV == [k |-> "none"]
 S(s) == [k |-> "str", v |-> s]          \* strings are sequences of character codes ("a" = <<1>>, "" = <<>>)
 T(s) == [k |-> "tup", v |-> s]
-Err(x) == [k |-> "err", e |-> x]        \* "type" | "zerodiv" | "missing"
+Err(x) == [k |-> "err", e |-> x]        \* "type" | "zerodiv" | "missing" (no game / player) | "noname" (undefined name)
 TypeErr == Err("type")
 ZeroErr == Err("zerodiv")
 Out == [k |-> "out"]                    \* outside the modelled fragment
@@ -130,7 +130,7 @@ Index(a, i) ==
 \* sw (switch state), cv (counter value), kp (event parameter present), kq (name that is not defined)
 Lookup(n, en) == CASE n = "px" -> IF en.game THEN en.px[en.cur] ELSE Err("missing")
                    [] n = "p2x" -> IF en.game THEN en.px[2] ELSE Err("missing")
-                   [] n = "kq" -> Err("missing")
+                   [] n = "kq" -> Err("noname")
                    [] OTHER -> en[n]
 \* the notification keys a variable access depends on
 KeysOf(n, en) == CASE n = "px" -> {"turn"} \cup (IF en.game THEN {IF en.cur = 1 THEN "px1" ELSE "px2"} ELSE {})
@@ -144,9 +144,8 @@ RECURSIVE Eval(_, _)
 RECURSIVE EvalSeq(_, _, _)
 EvalSeq(es, en, acc) == IF Len(es) = 0 THEN T(acc)
                         ELSE LET x == Eval(Head(es), en)
-                             IN IF x.k = "err" THEN x
-                                ELSE LET r == EvalSeq(Tail(es), en, acc \o <<x>>)
-                                     IN IF r.k = "err" THEN r ELSE IF x.k = "out" THEN Out ELSE r
+                             IN IF x.k = "err" THEN x ELSE IF x.k = "out" THEN Out
+                                ELSE EvalSeq(Tail(es), en, acc \o <<x>>)
 Eval(e, en) ==
     CASE e.t = "lit" -> IF e.v.k = "out" THEN Out ELSE e.v
       [] e.t = "var" -> Lookup(e.n, en)
@@ -156,11 +155,10 @@ Eval(e, en) ==
                           ELSE IF IsNum(a) THEN IntR(-Num(a)) ELSE TypeErr
       [] e.t \in {"bin", "cmp", "bool", "idx"} ->
               LET a == Eval(e.a, en)
-              IN IF a.k = "err" THEN a
+              IN IF a.k = "err" THEN a ELSE IF a.k = "out" THEN Out
                  ELSE LET b == Eval(IF e.t = "idx" THEN e.i ELSE e.b, en)
-                      IN IF b.k = "err" THEN b
-                         ELSE IF e.t = "bool" THEN (IF a.k = "out" THEN Out ELSE IF (e.o = "and") = Truthy(a) THEN b ELSE a)
-                         ELSE IF a.k = "out" \/ b.k = "out" THEN Out
+                      IN IF b.k = "err" THEN b ELSE IF b.k = "out" THEN Out
+                         ELSE IF e.t = "bool" THEN (IF (e.o = "and") = Truthy(a) THEN b ELSE a)
                          ELSE IF e.t = "bin" THEN Arith(e.o, a, b)
                          ELSE IF e.t = "cmp" THEN Compare(e.o, a, b)
                          ELSE Index(a, b)
@@ -193,7 +191,7 @@ Deps(e, en) ==
       [] e.t = "tup" -> DepsSeq(e.e, en)
 \* what a template with a default returns: default on TypeError / missing variable / None
 Res(e, en) == LET r == Eval(e, en)
-              IN IF r.k = "err" /\ r.e \in {"type", "missing"} THEN Dflt ELSE IF r.k = "none" THEN Dflt ELSE r
+              IN IF r.k = "err" /\ r.e \in {"type", "missing", "noname"} THEN Dflt ELSE IF r.k = "none" THEN Dflt ELSE r
 \* condition of a conditional event handler (BoolTemplate, default False)
 CondTrue(e, en) == Truthy(Res(e, en))
 \* ---------------------------------------------------------------- enumeration (part A) ---------------------
@@ -201,25 +199,25 @@ EnumLits == {I(0), I(1), I(2), B(TRUE), B(FALSE), NoneV, S(<<>>), S(<<1>>)}
 EnumVars == {"ma", "px", "st", "sw"}
 Leaves == {[t |-> "lit", v |-> v] : v \in EnumLits} \cup {[t |-> "var", n |-> n, acc |-> "attr"] : n \in EnumVars}
              \cup {[t |-> "tup", e |-> <<>>]}
-RECURSIVE ExprsOfSize(_)
-ExprsOfSize(n) ==
+\* ES = <<set of ASTs with 1 node, ..., set of ASTs with n-1 nodes>>; the result is the set of ASTs with n nodes.
+\* (The declarative definition; drivers/c16.py exprs_of_size mirrors it.  TLC only builds the levels 1 and 2.)
+ExprsOfSize(n, ES) ==
     IF n = 1 THEN Leaves
-    ELSE {[t |-> "un", o |-> o, a |-> a] : o \in UnOps, a \in ExprsOfSize(n - 1)}
-         \cup {[t |-> "tup", e |-> <<a>>] : a \in ExprsOfSize(n - 1)}
+    ELSE {[t |-> "un", o |-> o, a |-> a] : o \in UnOps, a \in ES[n - 1]}
+         \cup {[t |-> "tup", e |-> <<a>>] : a \in ES[n - 1]}
          \cup UNION {
-               {[t |-> "bin", o |-> o, a |-> a, b |-> b] : o \in BinOps, a \in ExprsOfSize(i), b \in ExprsOfSize(n - 1 - i)}
-               \cup {[t |-> "cmp", o |-> o, a |-> a, b |-> b] : o \in CmpOps, a \in ExprsOfSize(i), b \in ExprsOfSize(n - 1 - i)}
-               \cup {[t |-> "bool", o |-> o, a |-> a, b |-> b] : o \in BoolOps, a \in ExprsOfSize(i), b \in ExprsOfSize(n - 1 - i)}
-               \cup {[t |-> "idx", a |-> a, i |-> b] : a \in ExprsOfSize(i), b \in ExprsOfSize(n - 1 - i)}
-               \cup {[t |-> "tup", e |-> <<a, b>>] : a \in ExprsOfSize(i), b \in ExprsOfSize(n - 1 - i)}
+               {[t |-> "bin", o |-> o, a |-> a, b |-> b] : o \in BinOps, a \in ES[i], b \in ES[n - 1 - i]}
+               \cup {[t |-> "cmp", o |-> o, a |-> a, b |-> b] : o \in CmpOps, a \in ES[i], b \in ES[n - 1 - i]}
+               \cup {[t |-> "bool", o |-> o, a |-> a, b |-> b] : o \in BoolOps, a \in ES[i], b \in ES[n - 1 - i]}
+               \cup {[t |-> "idx", a |-> a, i |-> b] : a \in ES[i], b \in ES[n - 1 - i]}
+               \cup {[t |-> "tup", e |-> <<a, b>>] : a \in ES[i], b \in ES[n - 1 - i]}
                : i \in 1..(n - 2)}
          \cup UNION {UNION {
-               {[t |-> "if", c |-> c, a |-> a, b |-> b] : c \in ExprsOfSize(i), a \in ExprsOfSize(j), b \in ExprsOfSize(n - 1 - i - j)}
+               {[t |-> "if", c |-> c, a |-> a, b |-> b] : c \in ES[i], a \in ES[j], b \in ES[n - 1 - i - j]}
                : j \in 1..(n - 2 - i)} : i \in 1..(n - 3)}
-ExprsUpTo(n) == UNION {ExprsOfSize(i) : i \in 1..n}
 \* ---------------------------------------------------------------- state machine (part B) -------------------
 Fresh(e, en) == [last |-> Res(e, en), reads |-> Deps(e, en), pending |-> FALSE]
-Init == /\ cfg \in Configs /\ env \in Envs /\ nops = 0 /\ act = [op |-> "init"]
+Init == /\ cfg \in Configs /\ env \in Envs /\ (env.game \/ cfg.ge) /\ nops = 0 /\ act = [op |-> "init"]
         /\ sub = Fresh(cfg.expr, env)
         /\ auto = [last |-> Res(cfg.expr, env), must |-> FALSE, may |-> FALSE]
 Changed(a, b) == ~PyEq(a, b)      \* MPF posts a change event iff the new value differs by Python's !=
@@ -252,7 +250,7 @@ Remove(n) == /\ n \in {"ma", "mb"} /\ n \in cfg.vars
 UsesPlayers == "px" \in cfg.vars \/ "p2x" \in cfg.vars
 Turn == /\ env.game /\ UsesPlayers
         /\ World([env EXCEPT !.cur = 3 - env.cur], {"turn"}, [op |-> "turn"], TRUE)
-GameEnd == /\ env.game /\ UsesPlayers
+GameEnd == /\ env.game /\ UsesPlayers /\ cfg.ge        \* cfg.ge: the schedule generator may end the game
            /\ World([env EXCEPT !.game = FALSE, !.cur = 1, !.px = <<I(0), I(0)>>], {"turn", "plist"}, [op |-> "gend"], TRUE)
 GameStart == /\ ~env.game /\ UsesPlayers
              /\ World([env EXCEPT !.game = TRUE, !.cur = 1, !.px = <<I(0), I(0)>>], {"turn", "plist"}, [op |-> "gstart"], TRUE)
@@ -278,12 +276,41 @@ IsVal(x) == CASE x.k = "int" -> x.v \in Int
               [] x.k = "bool" -> x.v \in BOOLEAN
               [] x.k = "str" -> \A i \in 1..Len(x.v) : x.v[i] \in Nat
               [] x.k = "tup" -> \A i \in 1..Len(x.v) : IsVal(x.v[i]) /\ x.v[i].k \in {"int", "bool", "str", "tup", "none"}
-              [] x.k = "err" -> x.e \in {"type", "zerodiv", "missing"}
+              [] x.k = "err" -> x.e \in {"type", "zerodiv", "missing", "noname"}
               [] x.k \in {"none", "out"} -> TRUE
               [] OTHER -> FALSE
 AllKeys == {"ma", "mb", "st", "sw", "cv", "px1", "px2", "turn", "plist"}
 \* part A: Eval and Deps are total and well-typed on every (AST, env)
 EvalTotal == IsVal(Eval(cfg.expr, env)) /\ Deps(cfg.expr, env) \subseteq AllKeys
+\* Part A as a specification of its own.  Building the set of all ASTs as one TLC value is slow, so the ASTs are
+\* grown by actions instead: a state holds one AST (cfg.expr, with nops = number of nodes) and an environment; a step
+\* wraps the AST into a bigger one, the other operands being ASTs of at most two nodes.  Every AST of at most
+\* MaxSize <= 6 nodes is reached this way (its biggest operand is the one that was grown).  The driver enumerates
+\* ExprsOfSize directly and compares the number of states.
+CONSTANT MaxSize
+Sib1 == Leaves
+Sib2 == ExprsOfSize(2, <<Leaves>>)
+Sized(SS, k) == {[e |-> x, s |-> k] : x \in SS}
+Sibs == Sized(Sib1, 1) \cup Sized(Sib2, 2)
+Node2(a, b) == {[t |-> "bin", o |-> o, a |-> a, b |-> b] : o \in BinOps}
+               \cup {[t |-> "cmp", o |-> o, a |-> a, b |-> b] : o \in CmpOps}
+               \cup {[t |-> "bool", o |-> o, a |-> a, b |-> b] : o \in BoolOps}
+               \cup {[t |-> "idx", a |-> a, i |-> b], [t |-> "tup", e |-> <<a, b>>]}
+Wrap(e, s) ==
+    (IF s + 1 <= MaxSize THEN Sized({[t |-> "un", o |-> o, a |-> e] : o \in UnOps} \cup {[t |-> "tup", e |-> <<e>>]}, s + 1) ELSE {})
+    \cup UNION {IF s + x.s + 1 <= MaxSize THEN Sized(Node2(e, x.e) \cup Node2(x.e, e), s + x.s + 1) ELSE {} : x \in Sibs}
+    \cup UNION {IF s + x.s + y.s + 1 <= MaxSize
+                THEN Sized({[t |-> "if", c |-> e, a |-> x.e, b |-> y.e], [t |-> "if", c |-> x.e, a |-> e, b |-> y.e],
+                            [t |-> "if", c |-> x.e, a |-> y.e, b |-> e]}, s + x.s + y.s + 1)
+                ELSE {} : x \in Sibs, y \in Sibs}
+StateA(e, en, n, a) == /\ cfg' = [id |-> 0, expr |-> e, vars |-> {}, ep |-> FALSE, ge |-> TRUE] /\ nops' = n /\ act' = a
+                       /\ sub' = Fresh(e, en) /\ auto' = [last |-> Res(e, en), must |-> FALSE, may |-> FALSE]
+InitA == /\ env \in Envs /\ nops = 1 /\ act = [op |-> "init"]
+         /\ \E e \in Leaves : /\ cfg = [id |-> 0, expr |-> e, vars |-> {}, ep |-> FALSE, ge |-> TRUE]
+                               /\ sub = Fresh(e, env) /\ auto = [last |-> Res(e, env), must |-> FALSE, may |-> FALSE]
+Grow == \E w \in Wrap(cfg.expr, nops) : StateA(w.e, env, w.s, [op |-> "grow"]) /\ UNCHANGED env
+SpecA == InitA /\ [][Grow]_vars
+EvalTotalA == EvalTotal /\ VEq(sub.last, Res(cfg.expr, env)) /\ sub.reads = Deps(cfg.expr, env)
 \* part B: whenever no notification is pending the subscriber holds the current value
 NoStaleAtRest == ~sub.pending => VEq(sub.last, Res(cfg.expr, env))
 AutoFresh == VEq(auto.last, Res(cfg.expr, env))
